@@ -1,13 +1,44 @@
 #!/bin/sh
 # usage: run_check.sh <property id> <quick|thorough>
-# Rebuilds the simulator against /repo's current working tree (hooks on via sim/.cargo/config.toml), then runs the check.
+# Rebuilds the simulator against /repo's current working tree (hooks on via sim/.cargo/config.toml) and runs the check;
+# for the file-level properties it then rebuilds and runs the hook-OFF companion (l21real) on real scratch files, so the
+# shipped variants of the hooked call sites are exercised too (fault-free configuration).
 # exit 0 held | 1 violation (VIOLATION line printed) | 2 harness/build error
 ID="$1"; TIER="${2:-${VERIF_TIER:-quick}}"
-cd /verif/sim || exit 2
 export CARGO_NET_OFFLINE=true
+cd /verif/sim || exit 2
 mkdir -p target
 if ! cargo build --release --offline >target/build.log 2>&1; then
   echo "HARNESS-ERROR: build of l21sim against /repo failed"; grep -E "^error" -A8 target/build.log | head -60
   exit 2
 fi
-exec ./target/release/l21sim check "$ID" --tier "$TIER"
+./target/release/l21sim check "$ID" --tier "$TIER"; RC=$?
+case "$ID" in
+  C01|C02|C05|C18)
+    cd /verif/realfs || exit 2
+    mkdir -p target
+    if ! cargo build --release --offline >target/build.log 2>&1; then
+      echo "HARNESS-ERROR: build of l21real (hooks off) against /repo failed"; grep -E "^error" -A8 target/build.log | head -60
+      exit 2
+    fi
+    if [ "$TIER" = thorough ]; then N=200000; else N=4000; fi
+    SUM=target/summary.$ID.$$.json
+    ./target/release/l21real check "$ID" --runs $N --out $SUM; RC2=$?
+    if [ -z "$VERIF_NO_EVIDENCE" ] && [ -f "/verif/evidence/$ID.json" ] && [ -f $SUM ]; then
+      python3 - "$ID" "$SUM" <<'PY'
+import json,sys
+pid,summ=sys.argv[1],sys.argv[2]
+p=f'/verif/evidence/{pid}.json'
+e=json.load(open(p)); s=json.load(open(summ))
+e['coverage']['hook_off_real_files']=s
+e['coverage']['evaluations']+=s['runs']
+if s['violations']: e['violations']=e.get('violations',0)+1
+json.dump(e,open(p,'w'),indent=1)
+PY
+    fi
+    rm -f $SUM
+    if [ $RC2 -eq 2 ]; then exit 2; fi
+    if [ $RC -eq 0 ] && [ $RC2 -ne 0 ]; then RC=$RC2; fi
+    ;;
+esac
+exit $RC
